@@ -35,6 +35,12 @@ pub trait Eng: Pairing {
     fn g2_rescale(p: &Self::G2, l: u64) -> Self::G2;
     fn g1_z_is_one(p: &Self::G1) -> bool;
     fn g2_z_is_one(p: &Self::G2) -> bool;
+    /// the common downstream call shape `E::multi_pairing(&ps, &qs)`: the items are REFERENCES (`&G1Affine: Into<G1Prepared>`
+    /// is provided by every model but is not among the bounds of the `Pairing` trait, hence this glue)
+    fn multi_pairing_borrowed(ps: &[Self::G1Affine], qs: &[Self::G2Affine]) -> PairingOutput<Self>;
+    fn multi_miller_loop_borrowed(ps: &[Self::G1Affine], qs: &[Self::G2Affine]) -> MillerLoopOutput<Self>;
+    /// the same with references to projective points
+    fn multi_pairing_borrowed_proj(ps: &[Self::G1], qs: &[Self::G2]) -> PairingOutput<Self>;
 }
 
 /// a "generic looking" non-zero element of F with every base-prime-field coordinate non-zero
@@ -81,6 +87,15 @@ macro_rules! impl_eng {
             }
             fn g2_z_is_one(p: &Self::G2) -> bool {
                 p.z.is_one()
+            }
+            fn multi_pairing_borrowed(ps: &[Self::G1Affine], qs: &[Self::G2Affine]) -> PairingOutput<Self> {
+                <Self as Pairing>::multi_pairing(ps, qs)
+            }
+            fn multi_miller_loop_borrowed(ps: &[Self::G1Affine], qs: &[Self::G2Affine]) -> MillerLoopOutput<Self> {
+                <Self as Pairing>::multi_miller_loop(ps.iter(), qs.iter())
+            }
+            fn multi_pairing_borrowed_proj(ps: &[Self::G1], qs: &[Self::G2]) -> PairingOutput<Self> {
+                <Self as Pairing>::multi_pairing(ps, qs)
             }
         }
     };
@@ -229,6 +244,23 @@ impl<E: Eng> Setup<E> {
             }
         }
     }
+    /// class of a multi-pairing with at least 5 pairs, per pairing family (required classes are global)
+    fn multi_ge5_class(&self) -> &'static str {
+        let f = self.family.strip_prefix("family:").unwrap_or(self.family);
+        if f.starts_with("bls12") {
+            "multi:n>=5/bls12"
+        } else if f.starts_with("bn") {
+            "multi:n>=5/bn"
+        } else if f.starts_with("bw6") {
+            "multi:n>=5/bw6"
+        } else if f.starts_with("mnt4") {
+            "multi:n>=5/mnt4"
+        } else if f.starts_with("mnt6") {
+            "multi:n>=5/mnt6"
+        } else {
+            "multi:n>=5/other(cp6)"
+        }
+    }
     fn sc(&self, i: usize) -> String {
         format!("{}={}", self.s[i].0, hex(&self.s[i].1))
     }
@@ -316,6 +348,18 @@ fn bilinear<E: Eng>(ctx: &mut Ctx, st: &Setup<E>, alpha: &[usize]) {
             chk(loc, "nondegenerate", !got.0.is_one() && !st.base.0.is_one() && got == st.base, || {
                 format!("{}: e(G,H) is the identity (or not reproducible)", input())
             });
+        }
+        // the single-pair entry point Pairing::miller_loop followed by the final exponentiation
+        {
+            loc.class("miller_loop:single");
+            let ml_site = identity_site(a.is_zero(), b.is_zero(), "miller_loop_single");
+            match guard(loc, ml_site, input, || E::final_exponentiation(E::miller_loop(st.g1[ia], st.g2[ib]))) {
+                None => {}
+                Some(None) => flag(loc, ml_site, format!("{}: final_exponentiation(miller_loop(P, Q)) = None", input())),
+                Some(Some(v)) => {
+                    chk(loc, ml_site, v == got, || format!("{}: final_exponentiation(miller_loop(P, Q)) != pairing(P, Q); got {} want {}", input(), short(&v.0), short(&got.0)));
+                }
+            }
         }
         // order divides r: plain pow and the library's own validity check
         chk(loc, "output_order", got.0.pow(&st.r_limbs).is_one(), || {
@@ -565,11 +609,34 @@ fn multi_cases(variants: usize, with_id_lists: bool) -> Vec<MCase> {
             }
         }
     }
+    // the same pair twice (product e(P,Q)^2) and a pair together with its negative in either group (product 1):
+    // positions first / last / across the 4-pair chunk boundary / first+last.  Negation is by scalar index:
+    // S[1] = 1 <-> S[4] = r-1.
+    for n in [2usize, 5, 9] {
+        let mut pos: Vec<(usize, usize)> = vec![(0, 1)];
+        if n >= 5 {
+            pos.extend([(3, 4), (0, n - 1)]);
+        }
+        if n == 9 {
+            pos.push((7, 8));
+        }
+        for (i0, j0) in pos {
+            for (kind, second) in [("repeat:same_pair_twice", (1usize, 9usize)), ("repeat:(P,Q),(-P,Q)", (4, 9)), ("repeat:(P,Q),(P,-Q)", (9, 4))] {
+                // the pair at i0 is (G, 0x9e37..H) resp. (0x9e37..G, H); the pair at j0 repeats / negates it
+                let first = if kind == "repeat:(P,Q),(P,-Q)" { (9, 1) } else { (1, 9) };
+                let pairs = (0..n).map(|i| if i == i0 { first } else if i == j0 { second } else { pick(i, 3) }).collect();
+                out.push(MCase { pairs, kind });
+            }
+        }
+    }
     out
 }
 
 fn multi<E: Eng>(ctx: &mut Ctx, st: &Setup<E>, variants: usize, boundary_identity_cases: bool, all_shapes: bool) {
-    let cases: Vec<MCase> = multi_cases(variants, true).into_iter().filter(|c| boundary_identity_cases || c.kind != "one_identity_n=5,9").collect();
+    let cases: Vec<MCase> = multi_cases(variants, true)
+        .into_iter()
+        .filter(|c| boundary_identity_cases || (c.kind != "one_identity_n=5,9" && !(c.kind.starts_with("repeat:") && c.pairs.len() == 9)))
+        .collect();
     ctx.sweep(&format!("{}/multi", st.name), cases.len() as u64, |i, loc| {
         let c = &cases[i as usize];
         let n = c.pairs.len();
@@ -600,6 +667,16 @@ fn multi<E: Eng>(ctx: &mut Ctx, st: &Setup<E>, variants: usize, boundary_identit
             _ => {}
         }
         loc.class_if(effective > 4, "multi:more_than_one_chunk");
+        loc.class_if(n >= 5, st.multi_ge5_class());
+        let repeat = c.kind.starts_with("repeat:");
+        if repeat {
+            loc.class(c.kind);
+            loc.class(match n {
+                2 => "repeat:n=2",
+                5 => "repeat:n=5",
+                _ => "repeat:n=9",
+            });
+        }
         if loc.sampling() {
             loc.sample(desc());
         }
@@ -610,6 +687,22 @@ fn multi<E: Eng>(ctx: &mut Ctx, st: &Setup<E>, variants: usize, boundary_identit
             let Some(e) = single_ref(st, loc, "single_pairing", *a, *b, desc) else { return };
             want *= e.0;
         }
+        if repeat {
+            // an expected value that does not go through the single pairings of the repeated pairs:
+            // prod e(a_i G, b_i H) = e(G,H)^(sum a_i b_i mod r); for a pair and its negative the two factors cancel
+            let mut e = BigUint::zero();
+            for (a, b) in &c.pairs {
+                e = (e + &st.s[*a].1 * &st.s[*b].1) % &st.r;
+            }
+            let direct = st.base_pow(&e);
+            chk(loc, "multi_pairing_repeated_pairs", want == direct, || {
+                format!("{}: product of the single pairings != e(G,H)^(sum a_i b_i mod r); got {} want {}", desc(), short(&want), short(&direct))
+            });
+            if n == 2 && c.kind != "repeat:same_pair_twice" {
+                chk(loc, "multi_pairing_repeated_pairs", direct.is_one(), || format!("{}: harness: e(G,H)^(ab - ab) != 1", desc()));
+            }
+            want = direct;
+        }
         let ps: Vec<E::G1Affine> = c.pairs.iter().map(|(a, _)| st.g1[*a]).collect();
         let qs: Vec<E::G2Affine> = c.pairs.iter().map(|(_, b)| st.g2[*b]).collect();
         // (i) multi_pairing on affine inputs.  With identities in the list the verdict is split in two so
@@ -618,9 +711,10 @@ fn multi<E: Eng>(ctx: &mut Ctx, st: &Setup<E>, variants: usize, boundary_identit
         // (site pairing_with_g*_identity).
         let got: Option<PairingOutput<E>>;
         if !any_id {
-            got = guard(loc, "multi_pairing_product", desc, || E::multi_pairing(ps.clone(), qs.clone()));
+            let site = if repeat { "multi_pairing_repeated_pairs" } else { "multi_pairing_product" };
+            got = guard(loc, site, desc, || E::multi_pairing(ps.clone(), qs.clone()));
             if let Some(got) = got {
-                chk(loc, "multi_pairing_product", got.0 == want, || {
+                chk(loc, site, got.0 == want, || {
                     format!("{}: multi_pairing != product of the single pairings; got {} want {}", desc(), short(&got.0), short(&want))
                 });
             }
@@ -662,8 +756,37 @@ fn multi<E: Eng>(ctx: &mut Ctx, st: &Setup<E>, variants: usize, boundary_identit
                 });
             }
         }
+        // (ii') the borrowed call shapes `multi_pairing(&ps, &qs)` / `multi_miller_loop(ps.iter(), qs.iter())` (items are
+        // references), n in {2, 5}, compared with the owned call.  (`&G1Prepared` has no `Into<G1Prepared>` in any
+        // model, so prepared values can only be passed by value - shape (ii).)
+        if (n == 2 || n == 5) && c.kind != "one_identity_n=5,9" {
+            loc.class("multi:borrowed_items");
+            loc.class_if(n == 5, "multi:borrowed_items,n=5");
+            let site_b = identity_site(g1_id, g2_id, "multi_pairing_borrowed_items");
+            if let Some(v) = guard(loc, site_b, desc, || E::multi_pairing_borrowed(&ps, &qs)) {
+                chk(loc, site_b, v.0 == reference, || {
+                    format!("{}: multi_pairing(&ps, &qs) [borrowed affine items] != multi_pairing(ps, qs); got {} want {}", desc(), short(&v.0), short(&reference))
+                });
+            }
+            match guard(loc, site_b, desc, || E::final_exponentiation(E::multi_miller_loop_borrowed(&ps, &qs))) {
+                None => {}
+                Some(None) => flag(loc, site_b, format!("{}: final_exponentiation(multi_miller_loop(ps.iter(), qs.iter())) = None", desc())),
+                Some(Some(v)) => {
+                    chk(loc, site_b, v.0 == reference, || {
+                        format!("{}: final_exponentiation(multi_miller_loop(ps.iter(), qs.iter())) [borrowed affine items] != multi_pairing(ps, qs); got {} want {}", desc(), short(&v.0), short(&reference))
+                    });
+                }
+            }
+            let pj: Vec<E::G1> = c.pairs.iter().map(|(a, _)| E::g1_rescale(&st.g1p[*a], GENERIC64)).collect();
+            let qj: Vec<E::G2> = c.pairs.iter().map(|(_, b)| E::g2_rescale(&st.g2p[*b], GENERIC64)).collect();
+            if let Some(v) = guard(loc, site_b, desc, || E::multi_pairing_borrowed_proj(&pj, &qj)) {
+                chk(loc, site_b, v.0 == reference, || {
+                    format!("{}: multi_pairing(&ps, &qs) [borrowed projective items, Z != 1] != multi_pairing(ps, qs); got {} want {}", desc(), short(&v.0), short(&reference))
+                });
+            }
+        }
         // (iii) multi_pairing on projective inputs with Z != 1 (identity: Z = 0 with junk X, Y)
-        if all_shapes || c.kind != "one_identity_n=5,9" {
+        if all_shapes || (c.kind != "one_identity_n=5,9" && !repeat) {
             let pj: Vec<E::G1> = c.pairs.iter().map(|(a, _)| E::g1_rescale(&st.g1p[*a], GENERIC64)).collect();
             let qj: Vec<E::G2> = c.pairs.iter().map(|(_, b)| E::g2_rescale(&st.g2p[*b], GENERIC64)).collect();
             let site3 = identity_site(g1_id, g2_id, "multi_pairing_projective_inputs");
@@ -694,6 +817,18 @@ struct Plan {
 /// pairing of the generators is not 1), the value has order dividing r, and the pairing is additive
 /// around them.  Catches identity filters / shortcuts keyed on a coordinate value instead of the
 /// infinity flag.
+/// k * P by plain double-and-add through the group's `+` / `double` (never the possibly overridden `mul`)
+fn dbl_add<G: CurveGroup>(p: G, k: &BigUint) -> G {
+    let mut acc = G::zero();
+    for i in (0..k.bits()).rev() {
+        acc = acc.double();
+        if k.bit(i) {
+            acc += p;
+        }
+    }
+    acc
+}
+
 fn special_points<E: Eng>(ctx: &mut Ctx, st: &Setup<E>) {
     use ark_ec::AffineRepr;
     let patterns: Vec<Vec<u8>> = {
@@ -711,18 +846,30 @@ fn special_points<E: Eng>(ctx: &mut Ctx, st: &Setup<E>) {
         }
         v
     };
+    // clear_cofactor is C12's subject: a candidate is used only if the harness's own double-and-add (the group's
+    // `+` / `double`, never `mul`) confirms P != O and [r]P = O; otherwise it is skipped (class special_point_rejected)
+    let mut rejected = 0u64;
     let g1s: Vec<E::G1Affine> = {
         let mut v: Vec<E::G1Affine> = patterns.iter().filter_map(|b| E::G1Affine::from_random_bytes(b)).map(|p| p.clear_cofactor()).filter(|p| !p.is_zero()).collect();
         v.dedup();
         v.truncate(6);
+        let n = v.len();
+        v.retain(|p| catch_unwind(AssertUnwindSafe(|| !p.is_zero() && dbl_add(p.into_group(), &st.r).is_zero())).unwrap_or(false));
+        rejected += (n - v.len()) as u64;
         v
     };
     let g2s: Vec<E::G2Affine> = {
         let mut v: Vec<E::G2Affine> = patterns.iter().filter_map(|b| E::G2Affine::from_random_bytes(b)).map(|p| p.clear_cofactor()).filter(|p| !p.is_zero()).collect();
         v.dedup();
         v.truncate(4);
+        let n = v.len();
+        v.retain(|p| catch_unwind(AssertUnwindSafe(|| !p.is_zero() && dbl_add(p.into_group(), &st.r).is_zero())).unwrap_or(false));
+        rejected += (n - v.len()) as u64;
         v
     };
+    if rejected > 0 {
+        ctx.add_class("special_point_rejected", rejected);
+    }
     let (n1, n2) = (g1s.len() as u64, g2s.len() as u64);
     ctx.bound(&format!("{}.special_points", st.name), format!("{n1} special G1 points, {n2} special G2 points (from_random_bytes on structured strings, cofactor-cleared)"));
     let g = st.g1[1];
@@ -843,8 +990,25 @@ fn main() {
         "prepared_from_projective_Z≠1",
         "prepared_from_reference",
         "prepared_from_projective_identity_junk_XY",
+        "special_point_g1",
+        "special_point_g2",
+        "special_point_x=0",
+        "multi:n>=5/bls12",
+        "multi:n>=5/bn",
+        "multi:n>=5/bw6",
+        "multi:n>=5/mnt4",
+        "multi:n>=5/mnt6",
+        "multi:borrowed_items",
+        "multi:borrowed_items,n=5",
+        "miller_loop:single",
+        "repeat:same_pair_twice",
+        "repeat:(P,Q),(-P,Q)",
+        "repeat:(P,Q),(P,-Q)",
+        "repeat:n=2",
+        "repeat:n=5",
+        "repeat:n=9",
     ]);
-    ctx.require_thorough(&["engine:toy_bn373", "toybn:all_pairs"]);
+    ctx.require(&["engine:toy_bn373", "toybn:all_pairs"]);
     ctx.assume("RELATIONAL oracle: there is no independent pairing implementation. Expected values are the algebraic laws themselves: e(aG,bH) must equal e(G,H)^(ab mod r) with ab mod r computed on num-bigint integers and the power taken by plain square-and-multiply Field::pow on the raw target-field element (C02-checked arithmetic), never cyclotomic_exp; products of single pairings for multi-pairings; pairing(affine, affine) for the prepared forms");
     ctx.assume("points are indexed by scalars: G1 and G2 are cyclic of prime order r, P = aG and Q = bH for the fixed generators; scalar multiplication and point addition themselves are C03/C04's subject");
     ctx.assume("a degenerate e (constant 1) would satisfy every relation: excluded by the non-degeneracy check e(G,H) != 1, which with e(G,H)^r = 1 and r prime gives order exactly r");
@@ -859,6 +1023,8 @@ fn main() {
     );
     ctx.bound("prepared", "7 input forms x 7 input forms x {0,1,r-1,0x9e37..}^2; quick tier on the 753..782-bit engines: {0,0x9e37..}^2 x (every form against affine on either side + the diagonal = 19 form pairs)");
     ctx.bound("multi_lengths", "every n in 0..=9, 12, 13; identity patterns {regular,O1,O2,both}^n for n<=3 (all); one identity (G1 or G2) at every position for n=5,9 (quick: only on the engines with 4-pair chunking for the 753..782-bit ones); three call shapes (affine, prepared+miller_loop+final_exp, projective Z!=1)");
+    ctx.bound("multi_repeated_pairs", "the same pair twice / (P,Q) with (-P,Q) / (P,Q) with (P,-Q) in lists of n = 2, 5, 9 at positions (0,1), (3,4) [across the 4-pair chunk boundary], (0,n-1), (7,8); expected value e(G,H)^(sum a_i b_i mod r); quick tier on the 753..782-bit engines without chunking: n = 2, 5 only");
+    ctx.bound("multi_borrowed_items", "multi_pairing(&ps, &qs), multi_miller_loop(ps.iter(), qs.iter()) with &G1Affine / &G2Affine items and multi_pairing with &G1 / &G2 (Z != 1) items for every list of length 2 and 5 (all identity patterns of length 2), compared with the owned call; Pairing::miller_loop(P, Q) on every (a, b) of the bilinear sweep");
     ctx.bound("multi_scalar_variants", if ctx.quick() { "2 (1 on the 753..782-bit engines)" } else { "9 (3 on the 753..782-bit engines)" });
 
     run_engine::<ark_bls12_381::Bls12_381>(&mut ctx, "bls12_381", "engine:bls12_381", "family:bls12/M-twist", false, true);
@@ -872,11 +1038,9 @@ fn main() {
     run_engine::<ark_mnt4_753::MNT4_753>(&mut ctx, "mnt4_753", "engine:mnt4_753", "family:mnt4", true, false);
     run_engine::<ark_mnt6_753::MNT6_753>(&mut ctx, "mnt6_753", "engine:mnt6_753", "family:mnt6", true, false);
     run_engine::<ark_cp6_782::CP6_782>(&mut ctx, "cp6_782", "engine:cp6_782(hand-written)", "family:cp6(hand-written)", true, false);
-    if ctx.thorough() {
-        toybn::run(&mut ctx);
-    } else {
-        ctx.bound("toybn", "thorough tier only");
-    }
+    // BN with an M-type twist and a negative X is only instantiated by the toy universe; it costs a few
+    // seconds (1-limb fields), so it runs in both tiers
+    toybn::run(&mut ctx);
     std::process::exit(ctx.finish());
 }
 
